@@ -1,2 +1,88 @@
-(** C03 — statements only; see Proofs/. *)
-From RRSS Require Import Base.Outcome.
+(** C03 — Expressions evaluate by the Rockstar value rules for every operand kind.
+    Statements only; proofs in Proofs/ValTables.v (tables) and Proofs/ValLaws.v (short circuit). *)
+From Coq Require Import List ZArith NArith Bool.
+From RRSS Require Import Base.Outcome Base.Chars Base.F64 Base.F64Text Exec.Val Exec.Ops Front.Ast Exec.Env Exec.Interp.
+From RRSS Require Import Proofs.ValTables Proofs.ValLaws.
+Import ListNotations.
+
+(** the model of val.rs (written as the Rust is, with its argument-swapping recursion) computes
+    exactly the declarative 6x6 tables [spec_plus], [spec_arith], [spec_multiply], [spec_equals],
+    [spec_compare] — for all values, incl. NaN, infinities, -0, empty and numeric-looking strings *)
+Theorem C03_plus_table : forall a b, v_plus a b = spec_plus a b.
+Proof. exact plus_table. Qed.
+Theorem C03_subtract_table : forall a b, v_subtract a b = spec_arith fsub a b.
+Proof. exact subtract_table. Qed.
+Theorem C03_divide_table : forall a b, v_divide a b = spec_arith fdiv a b.
+Proof. exact divide_table. Qed.
+Theorem C03_multiply_table : forall a b, v_multiply a b = spec_multiply a b.
+Proof. exact multiply_table. Qed.
+Theorem C03_equals_table : forall a b, v_equals a b = Ok (spec_equals a b).
+Proof. exact equals_table. Qed.
+Theorem C03_compare_table :
+  forall a b, v_compare a b = match spec_compare a b with OrdOf c => Ok c | OrdError => Err (InvalidComparison a b) end.
+Proof. exact compare_table. Qed.
+Theorem C03_negate_table :
+  forall a, v_negate a = match a with VNum n => Ok (VNum (fneg n)) | _ => Err (InvalidOperationForType (lit "negate") a) end.
+Proof. exact negate_table. Qed.
+Theorem C03_not_table : forall a, unop_apply UNot a = Ok (VBool (negb (spec_truthy a))).
+Proof. exact not_table. Qed.
+Theorem C03_inc_table :
+  forall a k,
+  v_inc a k = match a with
+              | VNull => Ok (VNum (fadd fzero (f_of_Z k)))
+              | VBool b => Ok (VBool (xorb b (Z.odd k)))
+              | VNum n => Ok (VNum (fadd n (f_of_Z k)))
+              | _ => Err (InvalidOperationForType (if (0 <=? k)%Z then lit "increment" else lit "decrement") a)
+              end.
+Proof. exact inc_table. Qed.
+
+(** the text printed for a value is its canonical rendering *)
+Theorem C03_output_table : forall a, to_string_for_output a = Ok (spec_text a).
+Proof. exact output_table. Qed.
+
+(** expressions: left operand first, then the list operands folded left to right *)
+Theorem C03_binary_clause :
+  forall prof f op l first rest e,
+  produce_expr prof (S f) (EBinary op l first rest) e =
+  (let+ (lv, e1) := produce_expr prof f l e in fold_rhs prof f op lv (first :: rest) e1).
+Proof. exact binary_clause. Qed.
+
+(** short-circuiting: an operand that is not needed is not evaluated (the environment — variables,
+    pronoun, input position, output — is handed on untouched), and the result is what evaluating it
+    would have given *)
+Theorem C03_fold_clause :
+  forall prof f op acc x t e,
+  fold_rhs prof (S f) op acc (x :: t) e =
+  (if needs_rhs op acc then
+     let+ (bv, e1) := produce_expr prof f x e in
+     let+ (r, e2) := lift_val (binop_apply op acc bv) e1 in
+     fold_rhs prof f op r t e2
+   else fold_rhs prof f op (short_result op acc) t e).
+Proof. exact fold_clause. Qed.
+
+Theorem C03_short_circuit_sound :
+  forall o a b, needs_rhs o a = false -> binop_apply o a b = Ok (short_result o a).
+Proof. exact short_circuit_sound. Qed.
+
+Theorem C03_compound_assign_clause :
+  forall prof f d first rest o xs e,
+  exec_stmt prof (S f) (SAssign d first rest (Some o)) xs e =
+  match tick e with
+  | None => XOverBudget
+  | Some e =>
+      let+ (nv, e1) := (let+ (lv, e0) := produce_primary prof f (lhs_as_primary d) e in
+                        fold_rhs prof f o lv (first :: rest) e0) in
+      let+ (_, e2) := settle (write_primary prof f (WAssign nv) (lhs_as_primary d) e1) in
+      XOk xs e2
+  end.
+Proof. exact compound_assign_clause. Qed.
+
+Theorem C03_invalid_is_error :
+  forall a b,
+  (forall k, match a with VUndef | VStr _ | VArr _ _ => is_err (v_inc a k) = true | _ => True end) /\
+  (match a with VNum _ => True | _ => is_err (v_negate a) = true end) /\
+  (spec_compare a b = OrdError -> is_err (v_compare a b) = true).
+Proof. exact invalid_is_error. Qed.
+
+Print Assumptions C03_equals_table.
+Print Assumptions C03_compare_table.
